@@ -2,8 +2,9 @@
 
 Decided: the verification gate of unsign_from_foolscap, the pair handed to
 _process_announcement, the sequence-number replay rule (client and introducer
-server), and the exception-escape analysis (E9) of the per-announcement handler
-in got_announcements (DESIGN.md section 5, C34)."""
+server), the exception-escape analysis (E9) of the per-announcement handler
+in got_announcements (DESIGN.md section 5, C34), and that the decoding of the
+claimed key string into the verifying key is one-to-one (C34.7)."""
 from sa.h import *
 
 EXPLANATION = (
@@ -22,15 +23,30 @@ EXPLANATION = (
     "sequence-number rule to _announcements[(service, key)]; (6) crypto.ed25519.verify_signature itself reaches its "
     "normal exit only after <key parameter>.verify(<signature parameter>, <data parameter>) of the cryptography "
     "library returned normally (parameters not re-bound, arguments in that order or by keyword), so 'returned "
-    "normally' in (1) means 'the Ed25519 check passed'. "
+    "normally' in (1) means 'the Ed25519 check passed'; (7) one key string names one key: because the announcement is "
+    "filed (and its sequence numbers compared) under the claimed key *string* while the signature is checked under the "
+    "key *decoded* from it, every operation on the data path from ann_t[2] to the key handed to verify_signature "
+    "(followed backwards through reaching definitions and resolved in-package callees: unsign_from_foolscap, "
+    "ed25519.verifying_key_from_string, crypto.util.remove_prefix, base32.a2b) must be one-to-one: constant prefix / "
+    "suffix, removal of a prefix that a startswith() test on every path established, strict encode/decode, the library "
+    "decoders, and case folding or lenient decoder flags only on a value that a validator test passed on every path "
+    "restricted to an alphabet without a letter in both cases (base32.could_be_base32_encoded: every accepting return "
+    "carries the conjunct `not bytes.translate(s, _, ALPHABET)` with ALPHABET folded to its bytes, and a conjunct "
+    "reading the last character, whose unused low bits base64.b32decode drops silently); strip / case change / "
+    "replace / split / re.sub / truncating or unchecked slices are violations. "
     "Not demanded (liveness only, every return is still gated by (1)+(6)): the polarity of the empty / 'v0-' prefix "
     "guards of unsign_from_foolscap and of the isinstance guards of verify_signature, the duplicate shortcut and the "
     "subscribed-service filter of _process_announcement, saving the cache, the introducer server's fan-out. "
     "Undecided: exceptions raised by library code (cryptography key decoding, json, UTF-8 decoding) and implicit "
     "exceptions (KeyError / TypeError on a validly signed announcement that is not a dict with 'service-name') raised "
-    "in _process_announcement outside the per-announcement try, Ed25519 itself.")
+    "in _process_announcement outside the per-announcement try, Ed25519 itself; for (7): the contents of the base32 "
+    "last-character table s8 (only that the last character is looked up is decided), whether the library maps "
+    "different 32-byte strings to one Ed25519 key, that repeated constant padding ('=') stays one-to-one (true while "
+    "the pad byte is outside the validated alphabet), and an unchecked prefix slice inside a callee whose caller "
+    "established the prefix (reported as ANALYSIS-ERROR, not as a violation).")
 TECHNIQUE = ("static analysis: CFG must-precede gates, CFG x fact-set monitor for the replay rule, transitive "
-             "exception-escape analysis over the resolved call graph with guard pruning and the class hierarchy")
+             "exception-escape analysis over the resolved call graph with guard pruning and the class hierarchy, "
+             "backward interprocedural data lineage (reaching definitions) with an injectivity classification of every step")
 
 UNSIGN = "introducer.common:unsign_from_foolscap"
 CLIENT = "introducer.client:IntroducerClient"
@@ -407,6 +423,545 @@ def _entry_stores(fn, roles):
     return out
 
 
+# =====================================================================
+# C34.7: the decoding claimed key string -> verifying key is one-to-one
+# =====================================================================
+# The announcement is filed under the *claimed key string* (C34.1: the returned key is ann_t[2]; C34.2/C34.4: the
+# index is (service, that string)), while the signature is checked under the *key decoded from it*.  Replay
+# protection per key therefore needs: two different strings never decode to the same verifying key.  The lineage
+# below walks backwards from the key handed to verify_signature to ann_t[2], through reaching definitions and
+# resolved in-package callees, and classifies every operation applied on the way.
+_LOSSY_METHODS = {"strip", "lstrip", "rstrip", "casefold", "swapcase", "capitalize", "title", "replace", "translate",
+                  "split", "rsplit", "partition", "rpartition", "splitlines", "expandtabs", "removeprefix",
+                  "removesuffix", "zfill", "ljust", "rjust", "center"}
+_CASEFOLD_METHODS = {"upper", "lower"}
+_IDENTITY_CALLS = {"bytes", "bytearray", "memoryview"}
+
+
+def _case_unique(alphabet):
+    syms = {bytes([b]) for b in alphabet} if isinstance(alphabet, bytes) else set(alphabet)
+    return len({x.upper() for x in syms}) == len(syms) and len({x.lower() for x in syms}) == len(syms)
+
+
+class KeyLineage:
+    def __init__(self, idx, root):
+        self.idx = idx
+        self.cg = get_callgraph(idx)
+        self.folder = get_folder(idx)
+        self.root = root
+        self.lossy = []          # (fn, ast node, message)   -> violations
+        self.undecided = []      # (fn, ast node, message)   -> ANALYSIS-ERROR when nothing is lossy
+        self.steps = []          # accepted one-to-one steps (evidence)
+        self.checkpoints = []    # (fn, ast node, note)      -> rule sites
+        self.states = 0
+        self._rd = {}
+        self._fnorm = {}
+        self._memo = {}
+        self._rets = {}
+        self._validators = {}
+
+    # ---- helpers
+    def rd(self, fn):
+        if fn.qual not in self._rd:
+            self._rd[fn.qual] = C.reaching_defs(fn.cfg())
+        return self._rd[fn.qual]
+
+    def fnorm(self, fn):
+        if fn.qual not in self._fnorm:
+            self._fnorm[fn.qual] = FlowNorm(fn)
+        return self._fnorm[fn.qual]
+
+    def locals_of(self, fn):
+        return set(fn.params) | set(all_defs(fn))
+
+    def const_value(self, fn, e, module_scope=False):
+        """(True, value) when e is a constant of the module (no local involved); parameter defaults are
+        evaluated in module scope."""
+        if isinstance(e, ast.Constant):
+            return True, e.value
+        if not module_scope and names_in(e) & self.locals_of(fn):
+            return False, None
+        try:
+            return True, self.folder.fold(e, fn.module, fn.cls)
+        except Exception:
+            return False, None
+
+    def _lossy(self, fn, node, msg):
+        if not any(f is fn and n is node for (f, n, _m) in self.lossy):
+            self.lossy.append((fn, node, msg))
+
+    def _undecided(self, fn, node, msg):
+        if not any(f is fn and n is node for (f, n, _m) in self.undecided):
+            self.undecided.append((fn, node, msg))
+
+    def _step(self, fn, what):
+        s = "%s: %s" % (short(fn), what)
+        if s not in self.steps:
+            self.steps.append(s)
+
+    def _checkpoint(self, fn, node, note):
+        if not any(f is fn and n is node for (f, n, _x) in self.checkpoints):
+            self.checkpoints.append((fn, node, note))
+
+    @staticmethod
+    def _def_value(dn, name):
+        a = dn.ast
+        if dn.kind != "stmt":
+            return None
+        if isinstance(a, ast.AugAssign) and isinstance(a.target, ast.Name) and a.target.id == name:
+            return ast.copy_location(ast.BinOp(left=ast.Name(id=name, ctx=ast.Load()), op=a.op, right=a.value), a)
+        if isinstance(a, ast.AnnAssign) and isinstance(a.target, ast.Name) and a.target.id == name:
+            return a.value
+        if isinstance(a, ast.Assign):
+            for t in a.targets:
+                if isinstance(t, ast.Name) and t.id == name:
+                    return a.value
+                if isinstance(t, (ast.Tuple, ast.List)):
+                    if isinstance(a.value, (ast.Tuple, ast.List)) and len(t.elts) == len(a.value.elts):
+                        for tt, vv in zip(t.elts, a.value.elts):
+                            if isinstance(tt, ast.Name) and tt.id == name:
+                                return vv
+                    else:
+                        for i, tt in enumerate(t.elts):
+                            if isinstance(tt, ast.Name) and tt.id == name:
+                                return ast.copy_location(ast.Subscript(value=a.value, slice=ast.Constant(value=i),
+                                                                       ctx=ast.Load()), a)
+        return None
+
+    def _is_self_pad(self, fn, dn, name):
+        """`x += const`, `x = x + const`, `x = const + x`: padding of the value with a constant."""
+        v = self._def_value(dn, name)
+        if not (isinstance(v, ast.BinOp) and isinstance(v.op, ast.Add)):
+            return False
+        for (a, b) in ((v.left, v.right), (v.right, v.left)):
+            if isinstance(a, ast.Name) and a.id == name and self.const_value(fn, b)[0]:
+                return True
+        return False
+
+    # ---- the backward walk: which inputs does the value of `e` at `node` come from
+    def back(self, fn, node, e):
+        if e is None or isinstance(e, ast.Constant):
+            return set()
+        if isinstance(e, ast.Name):
+            return self._name(fn, node, e)
+        if isinstance(e, ast.BinOp) and isinstance(e.op, ast.Add):
+            lc, rc = self.const_value(fn, e.left)[0], self.const_value(fn, e.right)[0]
+            if lc and rc:
+                return set()
+            if lc or rc:
+                self._step(fn, "constant %s" % ("prefix" if lc else "suffix"))
+                return self.back(fn, node, e.right if lc else e.left)
+            self._undecided(fn, e, "`%s` joins two non-constant values" % src(fn, e))
+            return self.back(fn, node, e.left) | self.back(fn, node, e.right)
+        if isinstance(e, ast.Subscript):
+            return self._subscript(fn, node, e)
+        if isinstance(e, ast.Call):
+            return self._call(fn, node, e)
+        if self.const_value(fn, e)[0]:
+            return set()
+        self._undecided(fn, e, "`%s` is not an operation the one-to-one analysis understands" % src(fn, e))
+        out = set()
+        for nm in names_in(e):
+            out |= self._name(fn, node, ast.Name(id=nm, ctx=ast.Load()))
+        return out
+
+    def _name(self, fn, node, e):
+        name = e.id
+        if name not in self.locals_of(fn):
+            if not self.const_value(fn, e)[0]:
+                self._undecided(fn, node.ast, "`%s` is read from module state" % name)
+            return set()
+        key = (fn.qual, node.id, name)
+        if key in self._memo:
+            return self._memo[key]
+        self._memo[key] = set()
+        cfg = fn.cfg()
+        ds = self.rd(fn).get(node.id, {}).get(name, frozenset())
+        defs = [d for d in ds if d != C.PARAM_DEF]
+        plain = [d for d in defs if not self._is_self_pad(fn, cfg.nodes[d], name)]
+        if len(plain) + (1 if C.PARAM_DEF in ds else 0) > 1:
+            self._undecided(fn, node.ast, "`%s` is bound differently on different paths (lines %s): a conditional rewrite "
+                            "of the key string cannot be shown to be one-to-one" % (
+                                name, ", ".join(sorted({str(cfg.nodes[d].lineno) for d in plain}))))
+        out = set()
+        if C.PARAM_DEF in ds:
+            out.add(("param", fn.qual, name))
+        for d in sorted(defs):
+            dn = cfg.nodes[d]
+            v = self._def_value(dn, name)
+            if v is None:
+                self._undecided(fn, dn.ast, "`%s` is bound by a %s, not by an assignment" % (name, dn.kind))
+                continue
+            if d not in plain:
+                self._step(fn, "padding with a constant (`%s`)" % src(fn, dn.ast))
+            out |= self.back(fn, dn, v)
+        self.states += len(ds)
+        self._memo[key] = out
+        return out
+
+    def _subscript(self, fn, node, e):
+        sl = e.slice
+        if isinstance(sl, ast.Slice):
+            if sl.upper is not None or sl.step is not None:
+                self._lossy(fn, e, "`%s` keeps only a part of the key string: every string with the same part decodes to "
+                            "the same key" % src(fn, e))
+                return self.back(fn, node, e.value)
+            if sl.lower is None:
+                return self.back(fn, node, e.value)
+            ok, c = self.const_value(fn, sl.lower)
+            if ok and c == 0:
+                return self.back(fn, node, e.value)
+            if ok and isinstance(c, int) and c < 0:
+                self._lossy(fn, e, "`%s` keeps only the tail of the key string" % src(fn, e))
+                return self.back(fn, node, e.value)
+            if self._prefix_guard(fn, node, e.value, sl.lower):
+                self._step(fn, "removal of a checked constant prefix (`%s`)" % src(fn, e))
+                self._checkpoint(fn, e, "checked prefix removal")
+            elif fn is self.root:
+                self._lossy(fn, e, "`%s` drops leading bytes that were not compared with a fixed prefix: key strings "
+                            "differing only there decode to the same key" % src(fn, e))
+            else:
+                self._undecided(fn, e, "`%s` drops leading bytes without a startswith() check in %s itself" % (
+                    src(fn, e), short(fn)))
+            return self.back(fn, node, e.value)
+        if isinstance(sl, ast.Constant) and isinstance(sl.value, int) and not isinstance(sl.value, bool) \
+                and fn is self.root and isinstance(e.value, ast.Name) \
+                and e.value.id == first_positional_params(fn)[0] \
+                and set(self.rd(fn).get(node.id, {}).get(e.value.id, ())) == {C.PARAM_DEF}:
+            return {("elem", e.value.id, sl.value)}
+        self._undecided(fn, e, "`%s` selects a part of a value" % src(fn, e))
+        return self.back(fn, node, e.value)
+
+    def _prefix_guard(self, fn, node, value, lower):
+        """Every path to `node` passed the true edge of <value>.startswith(P) with len(P) == lower."""
+        cfg = fn.cfg()
+        fnorm = self.fnorm(fn)
+        vs = fnorm.norm(node, value)
+        ls = fnorm.norm(node, lower)
+        lconst = self.const_value(fn, lower)
+        for t in cfg.nodes:
+            c = t.ast
+            if t.kind != "test" or not (isinstance(c, ast.Call) and isinstance(c.func, ast.Attribute)
+                                        and c.func.attr == "startswith" and len(c.args) == 1 and not c.keywords):
+                continue
+            if fnorm.norm(t, c.func.value) != vs:
+                continue
+            P = c.args[0]
+            same_len = fnorm.norm(t, ast.Call(func=ast.Name(id="len", ctx=ast.Load()), args=[P], keywords=[])) == ls
+            if not same_len and lconst[0]:
+                pc = self.const_value(fn, P)
+                same_len = pc[0] and isinstance(pc[1], (bytes, str)) and len(pc[1]) == lconst[1]
+            if not same_len:
+                continue
+            bad = find_path_avoiding(cfg, lambda x: x is node,
+                                     gate_edge=lambda x, lab, _t=t: x is _t and isinstance(lab, tuple) and lab[0] == "T",
+                                     kill=stores_any(names_in(value) | names_in(P)))
+            self.states += len(cfg.nodes)
+            if not bad:
+                return True
+        return False
+
+    def _call(self, fn, node, e):
+        f = e.func
+        targets = self.cg.resolve(fn, e)
+        if targets:
+            return self._package_call(fn, node, e, targets)
+        name, tail = call_name(e) or "", call_tail(e)
+        is_method_of_value = isinstance(f, ast.Attribute) and not (
+            isinstance(_attr_root(f.value), ast.Name) and _attr_root(f.value).id not in self.locals_of(fn))
+        if is_method_of_value:
+            recv = f.value
+            if tail in _LOSSY_METHODS:
+                self._lossy(fn, e, "`.%s()` is applied to the key string before it is decoded: several spellings of one "
+                            "key verify, but each is filed under its own name" % tail)
+            elif tail in _CASEFOLD_METHODS:
+                verdict, why = self._casefold_gate(fn, node, recv)
+                if verdict == "ok":
+                    self._step(fn, "case folding `.%s()` after %s" % (tail, why))
+                    self._checkpoint(fn, e, "case folding after alphabet check")
+                elif verdict == "no":
+                    self._lossy(fn, e, "`.%s()` folds the case of the key string although %s: upper-, lower- and mixed-"
+                                "case spellings of one key all verify, each filed under its own name" % (tail, why))
+                else:
+                    self._undecided(fn, e, "`.%s()`: %s" % (tail, why))
+            elif tail in ("encode", "decode"):
+                errs = kwarg(e, "errors") or arg(e, 1)
+                if errs is not None and not (isinstance(errs, ast.Constant) and errs.value == "strict"):
+                    self._lossy(fn, e, "`%s` converts the key string leniently" % src(fn, e))
+                else:
+                    self._step(fn, "strict `.%s()`" % tail)
+            else:
+                self._undecided(fn, e, "method `.%s()` applied to the key string" % tail)
+            out = self.back(fn, node, recv)
+            return out
+        args = list(e.args) + [k.value for k in e.keywords]
+        if tail == "b32decode" or tail == "from_public_bytes":
+            lenient = [k.arg for k in e.keywords if k.arg in ("casefold", "map01")
+                       and not (isinstance(k.value, ast.Constant) and k.value.value in (False, None))]
+            lenient += ["extra positional arguments"] if len(e.args) > 1 else []
+            data = e.args[0] if e.args else (args[0] if args else None)
+            verdict, why = ("ok", "") if not lenient else self._casefold_gate(fn, node, data)
+            if verdict == "ok":
+                self._step(fn, "library decoding `%s(..)`%s" % (name, " (lenient flags without effect: %s)" % why if lenient else ""))
+                self._checkpoint(fn, e, "library decoding")
+            elif verdict == "no":
+                self._lossy(fn, e, "`%s` decodes leniently (%s) and %s: several spellings of one key are accepted, each "
+                            "filed under its own name" % (src(fn, e), ", ".join(lenient), why))
+            else:
+                self._undecided(fn, e, "`%s` decodes leniently (%s); %s" % (src(fn, e), ", ".join(lenient), why))
+            return self.back(fn, node, data)
+        if name in _IDENTITY_CALLS and len(e.args) == 1 and not e.keywords:
+            return self.back(fn, node, e.args[0])
+        if name in ("re.sub", "re.subn"):
+            self._lossy(fn, e, "`%s` rewrites the key string before it is decoded" % src(fn, e))
+        else:
+            self._undecided(fn, e, "`%s(..)` is not a call the one-to-one analysis understands" % name)
+        out = set()
+        for a in args:
+            out |= self.back(fn, node, a)
+        return out
+
+    def _package_call(self, fn, node, e, targets):
+        out = set()
+        for g in targets:
+            origins = self.returns(g)
+            ps = first_positional_params(g) if g.cls is not None else list(g.params)
+            for i, p in enumerate(ps):
+                a = kwarg(e, p)
+                if a is None:
+                    a = arg(e, i)
+                if ("param", g.qual, p) in origins:
+                    if a is None:
+                        continue           # default value: a constant of the callee
+                    out |= self.back(fn, node, a)
+                elif a is not None and not self.const_value(fn, a)[0]:
+                    self._undecided(fn, e, "argument `%s` of %s is not a constant" % (src(fn, a), short(g)))
+            for o in origins:
+                if o[0] != "param":
+                    out.add(o)
+        return out
+
+    def returns(self, g):
+        if g.qual in self._rets:
+            return self._rets[g.qual]
+        self._rets[g.qual] = set()
+        out = set()
+        rets = [n for n in g.cfg().find(is_return) if n.ast.value is not None]
+        if not rets:
+            self._undecided(g, g.node, "%s returns no value" % short(g))
+        for rn in rets:
+            out |= self.back(g, rn, rn.ast.value)
+        self._rets[g.qual] = out
+        return out
+
+    # ---- case folding is one-to-one only on a single-case alphabet
+    def _casefold_gate(self, fn, node, recv, seen=None):
+        """Is the value of `recv` at `node` known to consist of a single-case alphabet (plus constant padding)?
+        Either a passed validator test on that very name precedes `node` on every path, or the name was bound from
+        such a value by a copy / case folding / constant padding."""
+        if isinstance(recv, ast.Call) and call_name(recv) in _IDENTITY_CALLS and len(recv.args) == 1:
+            return self._casefold_gate(fn, node, recv.args[0], seen)
+        if isinstance(recv, ast.Call) and isinstance(recv.func, ast.Attribute) and recv.func.attr in _CASEFOLD_METHODS \
+                and not recv.args:
+            return self._casefold_gate(fn, node, recv.func.value, seen)
+        if isinstance(recv, ast.BinOp) and isinstance(recv.op, ast.Add):
+            for (a, b) in ((recv.left, recv.right), (recv.right, recv.left)):
+                if self.const_value(fn, b)[0] and not self.const_value(fn, a)[0]:
+                    return self._casefold_gate(fn, node, a, seen)
+        if not isinstance(recv, ast.Name):
+            return "no", "its operand `%s` was not validated" % src(fn, recv)
+        cfg = fn.cfg()
+        verdicts = []
+        for t in cfg.nodes:
+            c = t.ast
+            if t.kind != "test" or not isinstance(c, ast.Call):
+                continue
+            vs = self.cg.resolve(fn, c)
+            if not vs or len(c.args) != 1 or c.keywords or not (isinstance(c.args[0], ast.Name) and c.args[0].id == recv.id):
+                continue
+            bad = find_path_avoiding(cfg, lambda x: x is node,
+                                     gate_edge=lambda x, lab, _t=t: x is _t and isinstance(lab, tuple) and lab[0] == "T",
+                                     kill=stores(recv.id))
+            self.states += len(cfg.nodes)
+            if bad:
+                continue
+            for V in vs:
+                verdicts.append((V,) + self.validator(V))
+        for (V, verdict, why) in verdicts:
+            if verdict == "ok":
+                self._checkpoint(V, V.node, "alphabet check")
+                return "ok", "%s restricted `%s` to the single-case alphabet %r" % (short(V), recv.id, why)
+        for (V, verdict, why) in verdicts:
+            if verdict == "no":
+                return "no", "%s, the only check before it, %s" % (short(V), why)
+        if verdicts:
+            return "unknown", "; ".join("%s: %s" % (short(V), why) for (V, _v, why) in verdicts)
+        # inherited from the value the name was bound from?
+        seen = set() if seen is None else seen
+        ds = self.rd(fn).get(node.id, {}).get(recv.id, frozenset())
+        nogate = ("no", "no check of the alphabet of `%s` (a passed validator test such as could_be_base32_encoded(%s)) "
+                  "precedes it on every path" % (recv.id, recv.id))
+        if not ds or C.PARAM_DEF in ds:
+            return nogate
+        result = None
+        if all((d, recv.id) in seen for d in ds):
+            return "ok", "(loop)"          # a definition already being examined: decided by the others
+        for d in sorted(ds):
+            if (d, recv.id) in seen:
+                continue
+            seen.add((d, recv.id))
+            dn = cfg.nodes[d]
+            v = self._def_value(dn, recv.id)
+            if v is None:
+                return nogate
+            sub = self._casefold_gate(fn, dn, v, seen)
+            if sub[0] != "ok":
+                return sub if sub[0] == "unknown" else nogate
+            if result is None or result[1] == "(loop)":
+                result = sub
+        return result if result is not None else nogate
+
+    def validator(self, V):
+        if V.qual not in self._validators:
+            self._validators[V.qual] = self._validator(V)
+        return self._validators[V.qual]
+
+    @staticmethod
+    def _param_default(V, name):
+        a = V.node.args
+        pos = list(a.posonlyargs) + list(a.args)
+        names = [x.arg for x in pos]
+        if name in names:
+            i = names.index(name) - (len(pos) - len(a.defaults))
+            return a.defaults[i] if i >= 0 else None
+        for x, d in zip(a.kwonlyargs, a.kw_defaults):
+            if x.arg == name:
+                return d
+        return None
+
+    def _unchanged_param(self, V, node, name):
+        return name in V.params and set(self.rd(V).get(node.id, {}).get(name, ())) == {C.PARAM_DEF}
+
+    def _same_as_param(self, V, node, e, p):
+        """`e` at `node` is the parameter p, possibly through bytes(p) / plain copies."""
+        saved = (list(self.lossy), list(self.undecided), list(self.steps), list(self.checkpoints))
+        try:
+            return self.back(V, node, e) == {("param", V.qual, p)} and len(self.lossy) == len(saved[0]) \
+                and len(self.undecided) == len(saved[1])
+        finally:
+            self.lossy, self.undecided, self.steps, self.checkpoints = saved
+
+    def _alphabet_of(self, V, node, c, p):
+        """`not <bytes.translate>(p, table, ALPHABET)`: true iff every byte of p is in ALPHABET."""
+        if not (isinstance(c, ast.UnaryOp) and isinstance(c.op, ast.Not) and isinstance(c.operand, ast.Call)):
+            return None
+        k = c.operand
+        if k.keywords:
+            return None
+        f = k.func
+        if isinstance(f, ast.Name) and self._unchanged_param(V, node, f.id):
+            f = self._param_default(V, f.id)
+        if f is not None and attr_path(f) == "bytes.translate" and len(k.args) == 3:
+            subj, delete = k.args[0], k.args[2]
+        elif isinstance(k.func, ast.Attribute) and k.func.attr == "translate" and len(k.args) == 2:
+            subj, delete = k.func.value, k.args[1]
+        else:
+            return None
+        if not self._same_as_param(V, node, subj, p):
+            return None
+        from_default = False
+        if isinstance(delete, ast.Name) and self._unchanged_param(V, node, delete.id):
+            delete, from_default = self._param_default(V, delete.id), True
+        if delete is None:
+            return None
+        ok, val = self.const_value(V, delete, module_scope=from_default)
+        return val if ok and isinstance(val, bytes) else None
+
+    def _reads_last(self, V, node, c, p):
+        for x in ast.walk(c):
+            if isinstance(x, ast.Subscript) and self._same_as_param(V, node, x.value, p):
+                sl = x.slice
+                if isinstance(sl, ast.Slice):
+                    sl = sl.lower if sl.upper is None and sl.step is None else None
+                ok, val = self.const_value(V, sl) if sl is not None else (False, None)
+                if ok and val == -1:
+                    return True
+        return False
+
+    def _constant_input_only(self, V, rn, p):
+        cfg, fnorm = V.cfg(), self.fnorm(V)
+
+        def pins(x, lab):
+            f = fnorm.edge_fact(x, lab)
+            if not f:
+                return False
+            op, a, b = f
+            if op == "false" and a == p:
+                return True
+            if op == "==" and p in (a, b):
+                other = b if a == p else a
+                try:
+                    ast.literal_eval(other)
+                    return True
+                except Exception:
+                    return False
+            return False
+        self.states += len(cfg.nodes)
+        return not find_path_avoiding(cfg, lambda x: x is rn, gate_edge=pins, kill=stores(p))
+
+    def _validator(self, V):
+        ps = first_positional_params(V)
+        if not ps:
+            return "unknown", "takes no argument"
+        p = ps[0]
+        cfg = V.cfg()
+        rets = cfg.find(is_return)
+        if not rets:
+            return "unknown", "returns nothing"
+        alphabet = None
+        loops = any(n.kind == "iter" for n in cfg.nodes) or any(isinstance(x, ast.While) for x in ast.walk(V.node))
+        for rn in rets:
+            v = rn.ast.value
+            if v is None or (isinstance(v, ast.Constant) and not v.value):
+                continue
+            if isinstance(v, ast.Constant):
+                if self._constant_input_only(V, rn, p):
+                    continue
+                return "unknown", "accepts at line %d under a condition that is not understood" % rn.lineno
+            conj = list(v.values) if isinstance(v, ast.BoolOp) and isinstance(v.op, ast.And) else [v]
+            found = [a for a in (self._alphabet_of(V, rn, c, p) for c in conj) if a is not None]
+            if not found:
+                scans = [x for x in ast.walk(v) if isinstance(x, (ast.ListComp, ast.SetComp, ast.GeneratorExp, ast.DictComp))
+                         or (isinstance(x, ast.Call) and call_name(x) not in ("len", "ord", "isinstance"))]
+                if not scans and not loops:
+                    return "no", ("accepts `%s` after looking at its length / single bytes only, no longer at every byte "
+                                  "(`%s`)" % (p, src(V, v)))
+                return "unknown", "the accepting condition `%s` is not understood" % src(V, v)
+            for a in found:
+                if not _case_unique(a):
+                    return "no", "accepts the alphabet %r, which contains a letter in both cases" % a
+            # base64.b32decode silently drops the unused low bits of the last character: unless the validator
+            # constrains that character (beyond alphabet membership), up to 16 spellings decode to one key
+            others = [c for c in conj if self._alphabet_of(V, rn, c, p) is None]
+            if not any(self._reads_last(V, rn, c, p) for c in others):
+                opaque = [x for c in others for x in ast.walk(c)
+                          if isinstance(x, ast.Call) and call_name(x) not in ("len", "ord", "isinstance")]
+                if opaque or loops:
+                    return "unknown", "cannot see whether `%s` constrains the last character of `%s`" % (src(V, v), p)
+                return "no", ("no longer constrains the last character of `%s` (`%s`): its unused low bits are dropped by "
+                              "the decoder, so several last characters decode to the same bytes" % (p, src(V, v)))
+            alphabet = found[0]
+        if alphabet is None:
+            return "unknown", "never accepts"
+        return "ok", alphabet
+
+
+def _attr_root(e):
+    while isinstance(e, ast.Attribute):
+        e = e.value
+    return e
+
+
 def run(ctx: Context):
     idx = ctx.idx
     cg = get_callgraph(idx)
@@ -702,6 +1257,44 @@ def run(ctx: Context):
             for n in m.cfg().stmt_nodes():
                 if "self._announcements[]" in node_stores(n) and not (m is fn and n.id in store_ids):
                     r.violation(m, m.loc(n.ast), "%s writes _announcements outside the replay check" % short(m))
+
+    # -- 7. one key, one name ------------------------------------------------
+    with ctx.rule("C34.7", "R1", "the verifying key is decoded from the claimed key string ann_t[2] by one-to-one steps only "
+                  "(no stripping, case folding outside a validated single-case alphabet, truncation, lenient decoding): "
+                  "the string under which an announcement is filed names exactly one key", expected=6) as r:
+        un = idx.func(UNSIGN)
+        ucfg = un.cfg()
+        P = first_positional_params(un)[0]
+        lin = KeyLineage(idx, un)
+        vps = idx.func(VERIFY).params
+        starts = []
+        for n in ucfg.stmt_nodes():
+            for c in calls_at(n, "verify_signature"):
+                if any(t.qual == VERIFY for t in cg.resolve(un, c)):
+                    a = kwarg(c, vps[0])
+                    starts.append((n, c, a if a is not None else arg(c, 0)))
+        if not starts:
+            raise AnchorVanished("unsign_from_foolscap no longer calls crypto.ed25519.verify_signature (see C34.1)")
+        reached = True
+        for (n, c, a) in starts:
+            r.site(un, c, "key argument")
+            origins = lin.back(un, n, a)
+            if ("elem", P, 2) not in origins:
+                reached = False
+        for (f, nd, note) in lin.checkpoints:
+            r.site(f, nd, note)
+        r.count(lin.states)
+        for s in lin.steps:
+            r.sample(s)
+        ctx.note("C34.7 accepted one-to-one steps from %s[2] to the verifying key: %s" % (P, "; ".join(lin.steps)))
+        for (f, nd, msg) in lin.lossy:
+            r.violation(f, f.loc(nd), "the claimed key string is both the name an announcement is filed under and the "
+                        "source of the verifying key, so its decoding must be one-to-one; " + msg)
+        if lin.undecided and not lin.lossy:
+            raise AnalysisError("C34.7 cannot decide that the key decoding is one-to-one: " + "; ".join(
+                "%s at %s: %s" % (short(f), f.loc(nd), msg) for (f, nd, msg) in lin.undecided))
+        if not reached and not lin.lossy:
+            raise AnalysisError("C34.7: the key handed to verify_signature is not derived from %s[2]" % P)
 
 
 def _enclosing_loop_heads(fn, node):
